@@ -381,6 +381,13 @@ func (l *listener) Accept() (transport.Pipe, error) {
 
 func (l *listener) handler(ws *websocket.Conn, req *http.Request) {
 	l.lock.Lock()
+	if l.closed {
+		// The listener was closed while the upgrade was in flight:
+		// nobody will accept or close this connection.
+		l.lock.Unlock()
+		_ = ws.Close()
+		return
+	}
 
 	w := &wsPipe{
 		ws:      ws,
